@@ -79,7 +79,8 @@ def classify_hasher(h):
     m = re.match(r"^(?:std|core)::hash::BuildHasherDefault<(.*)>$", h)
     if m:
         inner = m.group(1)
-        if inner in ("ustr::IdentityHasher", "std::hash::DefaultHasher", "std::collections::hash_map::DefaultHasher", "ahash::AHasher"):
+        # rustc prints a re-exported type under either its public or its defining path depending on the context
+        if re.match(r"^ustr::(\w+::)*IdentityHasher$", inner) or re.match(r"^ahash::(\w+::)*AHasher$", inner) or re.match(r"^std::(hash|collections::hash_map)::(\w+::)*DefaultHasher$", inner):
             return ("FIXED-HASH", h)
         return ("RANDOM-HASH", f"unknown hasher {inner}: treated as process-seeded")
     return ("RANDOM-HASH", f"unknown BuildHasher {h}: treated as process-seeded")
